@@ -1168,3 +1168,316 @@ Proof.
 Qed.
 
 Local Close Scope Q_scope.
+
+(* ------------------------------------------------------------------------------------------------ *)
+(* Module-level state: index-group registry, named groups, counters, active variables               *)
+(* ------------------------------------------------------------------------------------------------ *)
+
+Lemma has_null_app r n a : reg_has_null (r ++ [(n, Some a)]) = reg_has_null r.
+Proof. unfold reg_has_null. rewrite existsb_app. simpl. rewrite orb_false_r. reflexivity. Qed.
+
+Lemma has_null_set n a r : reg_has_null r = false -> reg_has_null (reg_set n (Some a) r) = false.
+Proof.
+  unfold reg_has_null. induction r as [|[m w] t IH]; simpl; intro H; [reflexivity|].
+  apply orb_false_iff in H. destruct H as [H1 H2].
+  destruct (String.eqb n m); simpl.
+  - exact H2.
+  - rewrite H1. simpl. apply IH. exact H2.
+Qed.
+
+Lemma wf_lookup_not_null n r : reg_has_null r = false -> reg_lookup n r <> Some None.
+Proof.
+  unfold reg_has_null. induction r as [|[m w] t IH]; simpl; intro H; [discriminate|].
+  apply orb_false_iff in H. destruct H as [H1 H2].
+  destruct (String.eqb n m).
+  - destruct w; [discriminate | discriminate H1].
+  - apply IH. exact H2.
+Qed.
+
+Lemma lookup_app_keep n r m x y : reg_lookup n r = Some y -> reg_lookup n (r ++ [(m, x)]) = Some y.
+Proof.
+  induction r as [|[k w] t IH]; simpl; [discriminate|].
+  destruct (String.eqb n k); [trivial | exact IH].
+Qed.
+
+(* what the loop of read_index_file preserves, in the repaired code and in the code before the repair: no NULL
+   pointer appears, and every group that was defined keeps its atoms *)
+Definition reg_keeps (r r' : registry) : Prop :=
+  reg_wf r' /\ forall n l, reg_lookup n r = Some (Some l) -> reg_lookup n r' = Some (Some l).
+
+Lemma reg_keeps_refl r : reg_wf r -> reg_keeps r r.
+Proof. intro H. split; [exact H | trivial]. Qed.
+
+Lemma reg_keeps_trans a b c : reg_keeps a b -> reg_keeps b c -> reg_keeps a c.
+Proof. intros [_ H1] [W2 H2]. split; [exact W2 | intros n l H; apply H2, H1, H]. Qed.
+
+Lemma after_group_keeps v rec n rest r1 :
+  v <> IvNull -> reg_wf r1 ->
+  (forall ts r, reg_wf r -> reg_keeps r (fst (rec ts r))) ->
+  reg_keeps r1 (fst (after_group v rec n rest r1)).
+Proof.
+  intros Hv W Hrec. unfold after_group.
+  destruct rest as [|t rest']; [apply reg_keeps_refl; exact W|].
+  destruct t; try (apply Hrec; exact W);
+    (destruct v; [apply reg_keeps_refl; exact W | apply reg_keeps_refl; exact W | congruence]).
+Qed.
+
+Lemma read_loop_keeps v : v <> IvNull -> forall f ts r, reg_wf r -> reg_keeps r (fst (read_loop v f ts r)).
+Proof.
+  intro Hv. induction f as [|f IH]; intros ts r W; simpl; [apply reg_keeps_refl; exact W|].
+  destruct ts as [|t ts1]; [apply reg_keeps_refl; exact W|].
+  destruct t; try (apply reg_keeps_refl; exact W).
+  destruct (reg_lookup n r) as [[old|]|] eqn:El.
+  - destruct (zlist_eqb old (fst (take_atoms ts1))); [| apply reg_keeps_refl; exact W].
+    apply after_group_keeps; [exact Hv | exact W | exact IH].
+  - exfalso. exact (wf_lookup_not_null n r W El).
+  - eapply reg_keeps_trans; [| apply after_group_keeps; [exact Hv | | exact IH]].
+    + split; [unfold reg_wf; rewrite has_null_app; exact W |].
+      intros n0 l0 H0. apply lookup_app_keep. exact H0.
+    + unfold reg_wf. rewrite has_null_app. exact W.
+Qed.
+
+(* the repaired read_index_file, for every file and every well-formed registry: it never dereferences a NULL pointer,
+   leaves no NULL pointer, keeps every group that was defined, and a rejected file changes nothing *)
+Lemma read_index_file_repaired ts r :
+  reg_wf r ->
+  let '(r', rejected, crashed) := read_index_file IvRollback ts r in
+  crashed = false /\ reg_keeps r r' /\ (rejected = true -> r' = r).
+Proof.
+  intro W. unfold read_index_file.
+  pose proof (read_loop_keeps IvRollback ltac:(discriminate) (S (List.length ts)) ts r W) as K.
+  destruct (read_loop IvRollback (S (List.length ts)) ts r) as [r1 e]. cbn [fst] in K.
+  destruct e.
+  - split; [reflexivity | split; [apply reg_keeps_refl; exact W | trivial]].
+  - split; [exact (proj1 K) | split; [exact K | discriminate]].
+Qed.
+
+Lemma read_index_file_repaired_spec :
+  forall (file : list itok) (r : registry), reg_wf r ->
+    let '(r', rejected, crashed) := read_index_file IvRollback file r in
+    crashed = false /\ reg_wf r' /\
+    (forall n l, reg_lookup n r = Some (Some l) -> reg_lookup n r' = Some (Some l)) /\
+    (rejected = true -> r' = r).
+Proof.
+  intros file r W. pose proof (read_index_file_repaired file r W) as K.
+  destruct (read_index_file IvRollback file r) as [[r' e] c].
+  exact (conj (proj1 K) (conj (proj1 (proj1 (proj2 K))) (conj (proj2 (proj1 (proj2 K))) (proj2 (proj2 K))))).
+Qed.
+
+(* the same three facts for the code before the repair, except the last: see index_file_kept_refuted *)
+Lemma read_index_file_before_repair ts r :
+  reg_wf r ->
+  let '(r', _, crashed) := read_index_file IvKeep ts r in crashed = false /\ reg_keeps r r'.
+Proof.
+  intro W. unfold read_index_file.
+  pose proof (read_loop_keeps IvKeep ltac:(discriminate) (S (List.length ts)) ts r W) as K.
+  destruct (read_loop IvKeep (S (List.length ts)) ts r) as [r1 e]. cbn [fst] in K.
+  destruct e; (split; [try reflexivity; exact (proj1 K) | exact K]).
+Qed.
+
+(* ---- the whole module state ---- *)
+
+Definition modst_wf (s : modst) : Prop :=
+  reg_wf (q_reg s) /\ q_crash s = false /\ (forall g o, In (g, o) (q_named s) -> In o (q_cvs s)).
+
+(* what every phase of parse_config preserves *)
+Record extends (s s' : modst) : Prop := mkExt {
+  ex_wf : modst_wf s';
+  ex_cvs : exists l, q_cvs s' = q_cvs s ++ l;
+  ex_biases : exists l, q_biases s' = q_biases s ++ l;
+  ex_named : exists l, q_named s' = q_named s ++ l;
+  ex_reg : forall n l, reg_lookup n (q_reg s) = Some (Some l) -> reg_lookup n (q_reg s') = Some (Some l);
+  ex_active : forall c, In c (q_active s) -> In c (q_active s') }.
+
+Lemma extends_refl s : modst_wf s -> extends s s.
+Proof.
+  intro W. constructor; try (exists []; rewrite app_nil_r; reflexivity); trivial.
+Qed.
+
+Lemma extends_trans a b c : extends a b -> extends b c -> extends a c.
+Proof.
+  intros [_ [l1 C1] [l2 B1] [l3 N1] R1 A1] [W2 [k1 C2] [k2 B2] [k3 N2] R2 A2].
+  constructor; trivial.
+  - exists (l1 ++ k1). rewrite C2, C1, app_assoc. reflexivity.
+  - exists (l2 ++ k2). rewrite B2, B1, app_assoc. reflexivity.
+  - exists (l3 ++ k3). rewrite N2, N1, app_assoc. reflexivity.
+  - intros n l H. apply R2, R1, H.
+  - intros x H. apply A2, A1, H.
+Qed.
+
+Lemma set_err_extends e s : modst_wf s -> extends s (set_err e s).
+Proof.
+  intros (W & C & N). constructor; cbn; try (exists []; rewrite app_nil_r; reflexivity); trivial.
+  repeat split; assumption.
+Qed.
+
+Lemma read_files_extends fs : forall s, modst_wf s -> extends s (read_files IvRollback fs s).
+Proof.
+  induction fs as [|[ts|] r IH]; intros s W; simpl.
+  - apply extends_refl. exact W.
+  - pose proof (read_index_file_repaired ts (q_reg s) (proj1 W)) as K.
+    destruct (read_index_file IvRollback ts (q_reg s)) as [[r1 e] c]. destruct K as (-> & [W1 K1] & _).
+    eapply extends_trans; [| apply IH].
+    + destruct W as (W0 & C & N). constructor; cbn; try (exists []; rewrite app_nil_r; reflexivity); trivial.
+      unfold modst_wf; cbn. rewrite C. repeat split; assumption.
+    + destruct W as (W0 & C & N). unfold modst_wf; cbn. rewrite C. repeat split; assumption.
+  - eapply extends_trans; [apply set_err_extends; exact W | apply IH].
+    destruct W as (W0 & C & N). repeat split; assumption.
+Qed.
+
+Lemma parse_globals6_extends c s : modst_wf s -> extends s (parse_globals6 IvRollback c s).
+Proof.
+  intro W. unfold parse_globals6.
+  pose proof (read_files_extends (c6_files c) s W) as [W1 C1 B1 N1 R1 A1].
+  destruct (set_size (c6_traj c) (q_traj (read_files IvRollback (c6_files c) s))) as [tr e1].
+  destruct (set_size (c6_restart c) (q_restart (read_files IvRollback (c6_files c) s))) as [rs e2].
+  constructor; cbn; trivial.
+Qed.
+
+Lemma parse_groups_no_crash gs reg : reg_wf reg -> forall named mine, snd (parse_groups gs reg named mine) = false.
+Proof.
+  intro W. induction gs as [|g r IH]; intros named mine; simpl; [reflexivity|].
+  destruct (match gd_name g with Some n => existsb (String.eqb n) (named ++ mine) | None => false end); [reflexivity|].
+  destruct (gd_src g) as [|n|n].
+  - apply IH.
+  - unfold add_index_group. destruct (reg_lookup n reg) as [[l|]|] eqn:El; [apply IH | | reflexivity].
+    exfalso. exact (wf_lookup_not_null n reg W El).
+  - destruct (existsb (String.eqb n) (named ++ match gd_name g with Some n0 => mine ++ [n0] | None => mine end)); [apply IH | reflexivity].
+Qed.
+
+Lemma parse_cvs6_extends cs : forall s, modst_wf s -> extends s (parse_cvs6 cs s).
+Proof.
+  induction cs as [|c r IH]; intros s W; simpl; [apply extends_refl; exact W|].
+  pose proof (parse_groups_no_crash (cvd_groups c) (q_reg s) (proj1 W) (map fst (q_named s)) []) as NC.
+  destruct (parse_groups (cvd_groups c) (q_reg s) (map fst (q_named s)) []) as [[mine gfail] crash]. cbn [snd] in NC. subst crash.
+  destruct (gfail || cvd_fails c || existsb (String.eqb (cvd_name c)) (q_cvs s)); [apply set_err_extends; exact W|].
+  eapply extends_trans; [| apply IH].
+  - destruct W as (W0 & C & N). constructor; cbn; trivial.
+    + repeat split; try assumption. intros g o H. apply in_app_iff in H. apply in_app_iff. destruct H as [H | H].
+      * left. eapply N. exact H.
+      * right. apply in_map_iff in H. destruct H as (x & E & _). inversion E. left. reflexivity.
+    + eexists. reflexivity.
+    + exists []. rewrite app_nil_r. reflexivity.
+    + eexists. reflexivity.
+    + intros x H. apply in_app_iff. left. exact H.
+  - destruct W as (W0 & C & N). repeat split; cbn; try assumption.
+    intros g o H. apply in_app_iff in H. apply in_app_iff. destruct H as [H | H].
+    + left. eapply N. exact H.
+    + right. apply in_map_iff in H. destruct H as (x & E & _). inversion E. left. reflexivity.
+Qed.
+
+Lemma parse_btype6_extends bs : forall s, modst_wf s -> extends s (parse_btype6 true bs s).
+Proof.
+  induction bs as [|b r IH]; intros s W; simpl; [apply extends_refl; exact W|].
+  set (cs := bump (bd_type b) (q_counters s)).
+  set (nm := match bd_name b with Some n => n | None => default_name (bd_type b) (counter (bd_type b) cs) end).
+  destruct (q_err s || bd_fails b || negb (forallb (fun c => existsb (String.eqb c) (q_cvs s)) (bd_cvs b))
+            || existsb (fun o => String.eqb nm (fst (fst o))) (q_biases s)).
+  - destruct W as (W0 & C & N). constructor; cbn; try (exists []; rewrite app_nil_r; reflexivity); trivial.
+    repeat split; assumption.
+  - eapply extends_trans; [| apply IH].
+    + destruct W as (W0 & C & N). constructor; cbn; try (exists []; rewrite app_nil_r; reflexivity); trivial.
+      * repeat split; assumption.
+      * eexists. reflexivity.
+      * intros x H. unfold add_new. apply in_app_iff. left. exact H.
+    + destruct W as (W0 & C & N). repeat split; cbn; assumption.
+Qed.
+
+Lemma parse_biases6_extends bt : forall s, modst_wf s -> extends s (parse_biases6 true bt s).
+Proof.
+  induction bt as [|bs r IH]; intros s W; simpl; [apply extends_refl; exact W|].
+  eapply extends_trans; [apply parse_btype6_extends; exact W | apply IH].
+  exact (ex_wf _ _ (parse_btype6_extends bs s W)).
+Qed.
+
+(* a configuration, accepted or rejected, from a well-formed state: never a crash, the state stays well-formed
+   (no NULL group, every named group owned by a defined variable), the objects, named groups and index groups that
+   existed are still there unchanged, and every variable that was active is still active *)
+Lemma parse_config6_extends c s : modst_wf s -> extends s (parse_config6 IvRollback true c s).
+Proof.
+  intro W. unfold parse_config6.
+  set (s0 := mkModst (q_cvs s) (q_biases s) (q_reg s) (q_named s) (q_counters s) (q_traj s) (q_restart s) (q_active s) false (q_crash s)).
+  assert (E0 : extends s s0).
+  { destruct W as (W0 & C & N). constructor; cbn; try (exists []; rewrite app_nil_r; reflexivity); trivial. repeat split; assumption. }
+  pose proof (parse_globals6_extends c s0 (ex_wf _ _ E0)) as E1.
+  destruct (q_err (parse_globals6 IvRollback c s0) || q_crash (parse_globals6 IvRollback c s0)).
+  - exact (extends_trans _ _ _ E0 E1).
+  - pose proof (parse_cvs6_extends (c6_cvs c) _ (ex_wf _ _ E1)) as E2.
+    destruct (q_err (parse_cvs6 (c6_cvs c) (parse_globals6 IvRollback c s0)) || q_crash (parse_cvs6 (c6_cvs c) (parse_globals6 IvRollback c s0))).
+    + exact (extends_trans _ _ _ E0 (extends_trans _ _ _ E1 E2)).
+    + exact (extends_trans _ _ _ E0 (extends_trans _ _ _ E1 (extends_trans _ _ _ E2 (parse_biases6_extends _ _ (ex_wf _ _ E2))))).
+Qed.
+
+Lemma reset6_wf s : q_crash s = false -> modst_wf (reset6 s).
+Proof. intro C. repeat split; cbn; try assumption; try reflexivity. intros g o []. Qed.
+
+(* any session (configurations and resets) from a well-formed state stays well-formed: no crash *)
+Lemma run_session6_wf cfgs : forall s, modst_wf s -> modst_wf (run_session6 IvRollback true cfgs s).
+Proof.
+  induction cfgs as [|[c|] r IH]; intros s W; simpl; [exact W | |].
+  - apply IH. exact (ex_wf _ _ (parse_config6_extends c s W)).
+  - apply IH. apply reset6_wf. exact (proj1 (proj2 W)).
+Qed.
+
+(* what a configuration rejected in parse_global_params (a malformed or missing index file, a module-level keyword
+   whose value cannot be read) leaves behind: the groups of the index files that were accepted and the values of the
+   module-level keywords that could be read -- nothing else *)
+Lemma read_files_only_reg fs : forall s,
+  let s' := read_files IvRollback fs s in
+  q_cvs s' = q_cvs s /\ q_biases s' = q_biases s /\ q_named s' = q_named s /\ q_counters s' = q_counters s /\ q_active s' = q_active s
+  /\ q_traj s' = q_traj s /\ q_restart s' = q_restart s.
+Proof.
+  induction fs as [|[ts|] r IH]; intros s; simpl; [repeat split | |].
+  - destruct (read_index_file IvRollback ts (q_reg s)) as [[r1 e] c].
+    specialize (IH (set_crash c (set_err e (set_reg r1 s)))). cbn in IH. exact IH.
+  - specialize (IH (set_err true s)). cbn in IH. exact IH.
+Qed.
+
+Lemma rejected_in_globals c s :
+  let s0 := mkModst (q_cvs s) (q_biases s) (q_reg s) (q_named s) (q_counters s) (q_traj s) (q_restart s) (q_active s) false (q_crash s) in
+  q_err (parse_globals6 IvRollback c s0) = true ->
+  let s' := parse_config6 IvRollback true c s in
+  q_cvs s' = q_cvs s /\ q_biases s' = q_biases s /\ q_named s' = q_named s /\ q_counters s' = q_counters s /\ q_active s' = q_active s
+  /\ q_reg s' = q_reg (read_files IvRollback (c6_files c) s0).
+Proof.
+  intros s0 He. unfold parse_config6. fold s0. rewrite He. cbn [orb].
+  unfold parse_globals6.
+  pose proof (read_files_only_reg (c6_files c) s0) as (A & B & C & D & E & _).
+  destruct (set_size (c6_traj c) (q_traj (read_files IvRollback (c6_files c) s0))) as [tr e1].
+  destruct (set_size (c6_restart c) (q_restart (read_files IvRollback (c6_files c) s0))) as [rs e2].
+  cbn. repeat split; assumption.
+Qed.
+
+(* ---- witnesses: the three variants that are not the repaired code ---- *)
+
+Definition ndx_broken : list itok := [IHdr "first"; IAtom 1; IAtom 2; IAtom 3; IHdr "second"; IAtom 5; IAtom 6; IText; IAtom 8].
+Definition ndx_corrected : list itok := [IHdr "first"; IAtom 1; IAtom 2; IAtom 3; IHdr "second"; IAtom 5; IAtom 6; IAtom 7; IAtom 8].
+Definition ndx_other : list itok := [IHdr "third"; IAtom 4; IAtom 5].
+
+(* seeded change C10_4: after the rejected file the registry holds a NULL pointer under the name "second"; reading
+   another, valid file or defining a group with `indexGroup second` dereferences it *)
+Lemma index_file_null_refuted :
+  let r := fst (fst (read_index_file IvNull ndx_broken [])) in
+  reg_wf [] /\ snd (fst (read_index_file IvNull ndx_broken [])) = true
+  /\ reg_lookup "second" r = Some None
+  /\ snd (read_index_file IvNull ndx_other r) = true
+  /\ add_index_group "second" r = GUCrash.
+Proof. vm_compute. repeat split. Qed.
+
+(* before the repair: the rejected file leaves "second" = (5, 6) defined, so that the corrected file is refused *)
+Lemma index_file_kept_refuted :
+  let r := fst (fst (read_index_file IvKeep ndx_broken [])) in
+  snd (fst (read_index_file IvKeep ndx_broken [])) = true
+  /\ reg_lookup "second" r = Some (Some [5; 6])
+  /\ snd (fst (read_index_file IvKeep ndx_corrected r)) = true
+  /\ snd (fst (read_index_file IvRollback ndx_corrected (fst (fst (read_index_file IvRollback ndx_broken []))))) = false.
+Proof. vm_compute. repeat split. Qed.
+
+(* before the repair: a rejected bias switches off the variable it names when no other bias uses it *)
+Definition st_zz0 : modst := mkModst ["zz0"%string] [] [] [] [] 1 3 ["zz0"%string] false false.
+Definition cfg_bad_bias : config6 := mkCfg6 None None [] [] [[mkBd "harmonic" None ["zz0"%string] true]].
+Lemma rejected_bias_switches_off_refuted :
+  q_err (parse_config6 IvRollback false cfg_bad_bias st_zz0) = true
+  /\ q_active (parse_config6 IvRollback false cfg_bad_bias st_zz0) = []
+  /\ q_active (parse_config6 IvRollback true cfg_bad_bias st_zz0) = ["zz0"%string].
+Proof. vm_compute. repeat split. Qed.
